@@ -607,53 +607,65 @@ theorem run_SrcOk (ops : List Op) (cfgs : List Cfg) (past : List Op) (w : World)
     exact this
 
 
-/-! ## at most one refresh per entry object -/
+/-! ## at most one refresh in flight per entry object -/
 
 /-- the entry whose lookup asked the caller to start a background refresh -/
 def refreshId : LRes → Option Nat
   | .hit sv => if sv.refresh then some sv.eid else none
   | .miss => none
 
-def refreshIds (outs : List LRes) : List Nat := outs.filterMap refreshId
+/-- Ghost: the entries with a refresh in flight.  A lookup that returns `needRefresh` adds the entry
+object it answered from; the clean-up that ends a refresh of `key` releases the entry object stored
+under `key` at that moment. -/
+def latchStep (w : World) (op : Op) (latched : List Nat) : List Nat :=
+  match op with
+  | .refreshDone _ key =>
+    match find w.st.entries key with
+    | some e => latched.erase e.id
+    | none => latched
+  | _ => latched ++ (refreshId (step w op).2).toList
 
-structure IdInv (T : Int) (trig : List Nat) (s : State) : Prop where
-  ok : AllE (Ok T) s.entries
+def latchedAfter (w : World) (latched : List Nat) : List Op → List Nat
+  | [] => latched
+  | op :: ops => latchedAfter (step w op).1 (latchStep w op latched) ops
+
+structure IdInv (latched : List Nat) (s : State) : Prop where
   lt : ∀ p ∈ s.entries, p.2.id < s.nextId
-  tlt : ∀ i ∈ trig, i < s.nextId
-  nd : trig.Nodup
-  fresh : ∀ p ∈ s.entries, p.2.refreshing = false → p.2.id ∉ trig
+  tlt : ∀ i ∈ latched, i < s.nextId
+  nd : latched.Nodup
+  fresh : ∀ p ∈ s.entries, p.2.refreshing = false → p.2.id ∉ latched
   inj : ∀ p ∈ s.entries, ∀ q ∈ s.entries, p.2.id = q.2.id → p.1 = q.1
 
-theorem IdInv.sub {T T' : Int} {trig : List Nat} {s : State} {es' : List (Key × Entry)} (h : IdInv T trig s)
-    (hT : T ≤ T') (hsub : ∀ p ∈ es', p ∈ s.entries) : IdInv T' trig ⟨es', s.nextId⟩ :=
-  { ok := fun p hp => (h.ok p (hsub p hp)).mono hT
-    lt := fun p hp => h.lt p (hsub p hp)
-    tlt := h.tlt
-    nd := h.nd
-    fresh := fun p hp => h.fresh p (hsub p hp)
+theorem IdInv.sub {latched latched' : List Nat} {s : State} {es' : List (Key × Entry)} (h : IdInv latched s)
+    (hl : latched'.Sublist latched) (hsub : ∀ p ∈ es', p ∈ s.entries) : IdInv latched' ⟨es', s.nextId⟩ :=
+  { lt := fun p hp => h.lt p (hsub p hp)
+    tlt := fun i hi => h.tlt i (hl.subset hi)
+    nd := h.nd.sublist hl
+    fresh := fun p hp hr hi => h.fresh p (hsub p hp) hr (hl.subset hi)
     inj := fun p hp q hq => h.inj p (hsub p hp) q (hsub q hq) }
 
-theorem IdInv.update {T T' : Int} {trig trig' : List Nat} {s : State} {k : Key} {e0 e' : Entry}
-    (h : IdInv T trig s) (hT : T ≤ T') (hm : (k, e0) ∈ s.entries) (hid : e'.id = e0.id) (hok : Ok T' k e')
-    (htrig : (trig' = trig ∧ (e'.refreshing = false → e0.refreshing = false)) ∨
-             (trig' = trig ++ [e0.id] ∧ e0.refreshing = false ∧ e'.refreshing = true)) :
-    IdInv T' trig' ⟨store s.entries k e', s.nextId⟩ := by
+theorem IdInv.update {latched latched' : List Nat} {s : State} {k : Key} {e0 e' : Entry}
+    (h : IdInv latched s) (hm : (k, e0) ∈ s.entries) (hid : e'.id = e0.id)
+    (htrig : (latched' = latched ∧ (e'.refreshing = false → e0.refreshing = false)) ∨
+             (latched' = latched ++ [e0.id] ∧ e0.refreshing = false ∧ e'.refreshing = true) ∨
+             (latched' = latched.erase e0.id)) :
+    IdInv latched' ⟨store s.entries k e', s.nextId⟩ := by
   have hother : ∀ p ∈ s.entries, p.1 ≠ k → p.2.id ≠ e0.id := by
     intro p hp hk hi
     exact hk (h.inj p hp (k, e0) hm hi)
-  refine ⟨?_, ?_, ?_, ?_, ?_, ?_⟩
-  · exact (h.ok.mono (fun _ _ hk => hk.mono hT)).store hok
+  refine ⟨?_, ?_, ?_, ?_, ?_⟩
   · intro p hp
     rcases mem_store.mp hp with rfl | ⟨hp, _⟩
     · simp only [hid]; exact h.lt _ hm
     · exact h.lt p hp
   · intro i hi
-    rcases htrig with ⟨rfl, _⟩ | ⟨rfl, _, _⟩
+    rcases htrig with ⟨rfl, _⟩ | ⟨rfl, _, _⟩ | rfl
     · exact h.tlt i hi
     · rcases List.mem_append.mp hi with hi | hi
       · exact h.tlt i hi
       · simp only [List.mem_singleton] at hi; subst hi; exact h.lt _ hm
-  · rcases htrig with ⟨rfl, _⟩ | ⟨rfl, hf, _⟩
+    · exact h.tlt i (List.mem_of_mem_erase hi)
+  · rcases htrig with ⟨rfl, _⟩ | ⟨rfl, hf, _⟩ | rfl
     · exact h.nd
     · have := h.fresh _ hm hf
       rw [List.nodup_append]
@@ -661,24 +673,26 @@ theorem IdInv.update {T T' : Int} {trig trig' : List Nat} {s : State} {k : Key} 
       intro a ha b hb
       simp only [List.mem_singleton] at hb; subst hb
       intro hab; subst hab; exact this ha
+    · exact h.nd.erase _
   · intro p hp hr
     rcases mem_store.mp hp with rfl | ⟨hp', hk⟩
-    · rcases htrig with ⟨rfl, hf⟩ | ⟨rfl, _, ht⟩
+    · rcases htrig with ⟨rfl, hf⟩ | ⟨rfl, _, ht⟩ | rfl
       · simp only [hid]; exact h.fresh _ hm (hf hr)
       · simp only at hr; rw [ht] at hr; cases hr
-    · rcases htrig with ⟨rfl, _⟩ | ⟨rfl, _, _⟩
+      · simp only [hid]; exact List.Nodup.not_mem_erase h.nd
+    · rcases htrig with ⟨rfl, _⟩ | ⟨rfl, _, _⟩ | rfl
       · exact h.fresh p hp' hr
       · intro hi
         rcases List.mem_append.mp hi with hi | hi
         · exact h.fresh p hp' hr hi
         · simp only [List.mem_singleton] at hi; exact hother p hp' hk hi
+      · intro hi; exact h.fresh p hp' hr (List.mem_of_mem_erase hi)
   · intro p hp q hq hpq
     rcases mem_store.mp hp with rfl | ⟨hp', hk⟩ <;> rcases mem_store.mp hq with rfl | ⟨hq', hk'⟩
     · rfl
     · simp only [hid] at hpq; exact absurd hpq.symm (hother q hq' hk')
     · simp only [hid] at hpq; exact absurd hpq (hother p hp' hk)
     · exact h.inj p hp' q hq' hpq
-
 
 theorem cloneAll_inj (es : List (Key × Entry)) (id0 : Nat) :
     ∀ p ∈ cloneAll es id0, ∀ q ∈ cloneAll es id0, p.2.id = q.2.id → p.1 = q.1 := by
@@ -696,22 +710,22 @@ theorem cloneAll_inj (es : List (Key × Entry)) (id0 : Nat) :
       simp [cloneForReload] at hpq; omega
     · exact ih _ p hp q hq hpq
 
-theorem step_IdInv (T : Int) (trig : List Nat) (w : World) (op : Op) (hpre : ∀ t, op.time = some t → T ≤ t)
-    (h : IdInv T trig w.st) :
-    IdInv (op.time.getD T) (trig ++ (refreshId (step w op).2).toList) (step w op).1.st := by
-  have hT : T ≤ op.time.getD T := by
-    cases ht : op.time with
-    | none => simp
-    | some t => simpa using hpre t ht
-  have hokstep := step_Ok T w op hpre h.ok
+theorem latchStep_of_not_refreshDone {w : World} {op : Op} {latched : List Nat}
+    (h : ∀ now key, op ≠ .refreshDone now key) :
+    latchStep w op latched = latched ++ (refreshId (step w op).2).toList := by
+  cases op <;> first | rfl | exact absurd rfl (h _ _)
+
+theorem step_IdInv (latched : List Nat) (w : World) (op : Op) (h : IdInv latched w.st) :
+    IdInv (latchStep w op latched) (step w op).1.st := by
   cases op with
   | insert now key host qtype ttl ans nAns ns isIp =>
-    simp only [step, refreshId, Option.toList, List.append_nil] at hokstep ⊢
+    rw [latchStep_of_not_refreshDone (by intro _ _ hh; cases hh)]
+    simp only [step, refreshId, Option.toList, List.append_nil]
     cases isIp with
-    | true => exact h.sub hT (fun p hp => by simpa [State.insert] using hp)
+    | true => exact h.sub (List.Sublist.refl _) (fun p hp => by simpa [State.insert] using hp)
     | false =>
-      simp only [State.insert, Bool.false_eq_true, if_false] at hokstep ⊢
-      refine ⟨hokstep, ?_, ?_, h.nd, ?_, ?_⟩
+      simp only [State.insert, Bool.false_eq_true, if_false]
+      refine ⟨?_, ?_, h.nd, ?_, ?_⟩
       · intro p hp
         rcases mem_store.mp hp with rfl | ⟨hp, _⟩
         · simp [insEntry]
@@ -728,66 +742,59 @@ theorem step_IdInv (T : Int) (trig : List Nat) (w : World) (op : Op) (hpre : ∀
         · have := h.lt p hp'; simp [insEntry] at hpq; omega
         · exact h.inj p hp' q hq' hpq
   | lookup now key ign =>
-    have hT' : T ≤ now := hpre now rfl
-    simp only [Op.time, Option.getD_some] at hT hokstep ⊢
-    simp only [step, State.lookup] at hokstep ⊢
+    rw [latchStep_of_not_refreshDone (by intro _ _ hh; cases hh)]
+    simp only [step, State.lookup]
     cases hf : find w.st.entries key with
     | none =>
       simp only [refreshId, Option.toList, List.append_nil]
-      exact h.sub hT' (fun p hp => hp)
+      exact h.sub (List.Sublist.refl _) (fun p hp => hp)
     | some e0 =>
       have hm := find_mem hf
-      have hok0 := h.ok _ hm
-      rw [hf] at hokstep
-      simp only at hokstep ⊢
+      simp only
       rcases lookupEntry_cases w.cfg now ign e0 with ⟨_, hc | hc⟩ | hc | hc
       · obtain ⟨ttl, _, heq⟩ := hc
-        rw [heq] at hokstep ⊢
+        rw [heq]
         simp only [refreshId, freshServed, Bool.false_eq_true, if_false, Option.toList, List.append_nil]
         have hp := lookupEntry_preserves heq
-        have hok' : Ok now key (packedApprox (touch e0 now) now).2 :=
-          hokstep _ (mem_store.mpr (Or.inl rfl))
-        refine h.update hT' hm hp.2.2.2.2.1 hok' (Or.inl ⟨rfl, ?_⟩)
+        refine h.update hm hp.2.2.2.2.1 (Or.inl ⟨rfl, ?_⟩)
         intro hr
         rcases packedApprox_entry (touch e0 now) now with he | ⟨he, _⟩ <;> rw [he] at hr <;>
           simpa [touch, repack] using hr
       · obtain ⟨_, heq⟩ := hc
-        rw [heq] at hokstep ⊢
+        rw [heq]
         simp only [refreshId, freshServed, Bool.false_eq_true, if_false, Option.toList, List.append_nil]
         have hp := lookupEntry_preserves heq
-        have hok' : Ok now key (packedApprox (touch e0 now) now).2 :=
-          hokstep _ (mem_store.mpr (Or.inl rfl))
-        refine h.update hT' hm hp.2.2.2.2.1 hok' (Or.inl ⟨rfl, ?_⟩)
+        refine h.update hm hp.2.2.2.2.1 (Or.inl ⟨rfl, ?_⟩)
         intro hr
         rcases packedApprox_entry (touch e0 now) now with he | ⟨he, _⟩ <;> rw [he] at hr <;>
           simpa [touch, repack] using hr
       · obtain ⟨_, _, ttl, _, heq⟩ := hc
-        rw [heq] at hokstep ⊢
-        have hok' : Ok now key { touch e0 now with refreshing := true } :=
-          hokstep _ (mem_store.mpr (Or.inl rfl))
+        rw [heq]
         cases hr : e0.refreshing with
         | true =>
           have : refreshId (LRes.hit ⟨(touch e0 now).id, (touch e0 now).src, (touch e0 now).ans, (touch e0 now).nAns,
               ttl, decide ((touch e0 now).nAns > 0) || (touch e0 now).ns == 1, true, !(touch e0 now).refreshing⟩) = none := by
             simp [refreshId, touch, hr]
           simp only [this, Option.toList, List.append_nil]
-          exact h.update hT' hm rfl hok' (Or.inl ⟨rfl, fun hx => by cases hx⟩)
+          exact h.update hm rfl (Or.inl ⟨rfl, fun hx => by cases hx⟩)
         | false =>
           have : refreshId (LRes.hit ⟨(touch e0 now).id, (touch e0 now).src, (touch e0 now).ans, (touch e0 now).nAns,
               ttl, decide ((touch e0 now).nAns > 0) || (touch e0 now).ns == 1, true, !(touch e0 now).refreshing⟩) = some e0.id := by
             simp [refreshId, touch, hr]
           simp only [this, Option.toList]
-          exact h.update hT' hm rfl hok' (Or.inr ⟨rfl, hr, rfl⟩)
+          exact h.update hm rfl (Or.inr (Or.inl ⟨rfl, hr, rfl⟩))
       · obtain ⟨_, _, heq⟩ := hc
         rw [heq]
         simp only [refreshId, Option.toList, List.append_nil]
-        exact h.sub hT' (fun p hp => (mem_erase.mp hp).1)
+        exact h.sub (List.Sublist.refl _) (fun p hp => (mem_erase.mp hp).1)
   | janitor now choice =>
+    rw [latchStep_of_not_refreshDone (by intro _ _ hh; cases hh)]
     simp only [step, refreshId, Option.toList, List.append_nil]
-    exact h.sub hT (janitor_subset _ _ _ _)
+    exact h.sub (List.Sublist.refl _) (janitor_subset _ _ _ _)
   | reload c =>
-    simp only [step, refreshId, Option.toList, List.append_nil, State.reload] at hokstep ⊢
-    refine ⟨hokstep, ?_, ?_, h.nd, ?_, cloneAll_inj _ _⟩
+    rw [latchStep_of_not_refreshDone (by intro _ _ hh; cases hh)]
+    simp only [step, refreshId, Option.toList, List.append_nil, State.reload]
+    refine ⟨?_, ?_, h.nd, ?_, cloneAll_inj _ _⟩
     · intro p hp
       obtain ⟨k, e, i, _, _, h2, rfl⟩ := mem_cloneAll hp
       simpa [cloneForReload] using h2
@@ -797,59 +804,44 @@ theorem step_IdInv (T : Int) (trig : List Nat) (w : World) (op : Op) (hpre : ∀
       have := h.tlt _ hi
       simp [cloneForReload] at this; omega
   | reconf c =>
+    rw [latchStep_of_not_refreshDone (by intro _ _ hh; cases hh)]
     simp only [step, refreshId, Option.toList, List.append_nil]
-    exact h.sub hT (fun p hp => hp)
+    exact h.sub (List.Sublist.refl _) (fun p hp => hp)
   | refreshDone now key =>
-    have hT' : T ≤ now := hpre now rfl
-    simp only [step, refreshId, Option.toList, List.append_nil, State.refreshDone]
+    simp only [step, latchStep, State.refreshDone]
     cases hf : find w.st.entries key with
-    | none => exact h.sub hT (fun p hp => hp)
+    | none => exact h.sub (List.Sublist.refl _) (fun p hp => hp)
     | some e =>
       have hm := find_mem hf
       simp only
       split
-      · split
-        · rename_i hd hr
-          have := (h.ok _ hm).rf hr
-          simp only at this; omega
-        · exact h.sub hT (fun p hp => hp)
-      · exact h.sub hT (fun p hp => (mem_erase.mp hp).1)
+      · exact h.update hm rfl (Or.inr (Or.inr rfl))
+      · exact h.sub (List.erase_sublist) (fun p hp => hp)
   | remove key =>
+    rw [latchStep_of_not_refreshDone (by intro _ _ hh; cases hh)]
     simp only [step, refreshId, Option.toList, List.append_nil, State.remove]
-    exact h.sub hT (fun p hp => (mem_erase.mp hp).1)
+    exact h.sub (List.Sublist.refl _) (fun p hp => (mem_erase.mp hp).1)
   | removeFamily base =>
+    rw [latchStep_of_not_refreshDone (by intro _ _ hh; cases hh)]
     simp only [step, refreshId, Option.toList, List.append_nil, State.removeFamily]
     split
-    · exact h.sub hT (fun p hp => hp)
-    · exact h.sub hT (fun p hp => (List.mem_filter.mp hp).1)
+    · exact h.sub (List.Sublist.refl _) (fun p hp => hp)
+    · exact h.sub (List.Sublist.refl _) (fun p hp => (List.mem_filter.mp hp).1)
 
-
-
-theorem refreshIds_cons (r : LRes) (rs : List LRes) :
-    refreshIds (r :: rs) = (refreshId r).toList ++ refreshIds rs := by
-  unfold refreshIds
-  cases h : refreshId r <;> simp [h]
-
-theorem run_IdInv (ops : List Op) (T : Int) (trig : List Nat) (w : World) (hm : Mono T ops)
-    (h : IdInv T trig w.st) :
-    IdInv (lastTime T ops) (trig ++ refreshIds (run w ops).2) (run w ops).1.st := by
-  induction ops generalizing T trig w with
-  | nil => simpa [run_nil, refreshIds, lastTime] using h
+theorem run_IdInv (ops : List Op) (latched : List Nat) (w : World) (h : IdInv latched w.st) :
+    IdInv (latchedAfter w latched ops) (run w ops).1.st := by
+  induction ops generalizing latched w with
+  | nil => exact h
   | cons op ops ih =>
     rw [run_cons]
-    have := ih _ _ _ hm.head.2 (step_IdInv T trig w op hm.head.1 h)
-    simp only [lastTime, refreshIds_cons, ← List.append_assoc]
-    exact this
+    exact ih _ _ (step_IdInv latched w op h)
 
-theorem IdInv_empty (T : Int) : IdInv T [] State.empty :=
-  { ok := AllE_empty _
-    lt := fun p hp => by simp [State.empty] at hp
+theorem IdInv_empty : IdInv [] State.empty :=
+  { lt := fun p hp => by simp [State.empty] at hp
     tlt := fun i hi => by simp at hi
     nd := List.nodup_nil
     fresh := fun p hp => by simp [State.empty] at hp
     inj := fun p hp => by simp [State.empty] at hp }
-
-
 
 /-! ## the clock-independent part of the entry invariant (holds even if the clock jumps back) -/
 
@@ -1392,6 +1384,58 @@ theorem swapL_perm (l : List HItem) (i j : Nat) : (swapL l i j).Perm l := by
       cases l[i]? <;> exact List.Perm.refl _
   · have : l[i]? = none := List.getElem?_eq_none (by omega)
     rw [this]
+
+
+
+/-! ## the `fixed_domain_ttl` table -/
+
+def pfStep (m : List (List Char × Int)) (p : List Char × Int) : List (List Char × Int) :=
+  (p.1.map lowerAscii, p.2) :: m.filter (fun q => q.1 ≠ p.1.map lowerAscii)
+
+theorem parseFixed_eq (raw : List (List Char × Int)) : parseFixed raw = raw.foldl pfStep [] := rfl
+
+theorem lookupFixed_filter_ne (m : List (List Char × Int)) (k' k : List Char) (h : k' ≠ k) :
+    lookupFixed (m.filter (fun q => q.1 ≠ k')) k = lookupFixed m k := by
+  induction m with
+  | nil => rfl
+  | cons q rest ih =>
+    obtain ⟨a, v⟩ := q
+    by_cases ha : a = k'
+    · subst ha
+      simp only [List.filter_cons, ne_eq, not_true_eq_false, decide_false, Bool.false_eq_true, if_false, lookupFixed,
+        if_neg h]
+      exact ih
+    · simp only [List.filter_cons, ne_eq, ha, not_false_eq_true, decide_true, if_true, lookupFixed]
+      rw [ih]
+
+theorem lookupFixed_pfStep (m : List (List Char × Int)) (p : List Char × Int) (k : List Char) :
+    lookupFixed (pfStep m p) k = if p.1.map lowerAscii = k then some p.2 else lookupFixed m k := by
+  unfold pfStep
+  simp only [lookupFixed]
+  by_cases h : p.1.map lowerAscii = k
+  · simp [h]
+  · simp only [h, if_false]
+    exact lookupFixed_filter_ne m _ k h
+
+theorem lookupFixed_foldl_other (post : List (List Char × Int)) (m : List (List Char × Int)) (k : List Char)
+    (h : ∀ q ∈ post, q.1.map lowerAscii ≠ k) : lookupFixed (post.foldl pfStep m) k = lookupFixed m k := by
+  induction post generalizing m with
+  | nil => rfl
+  | cons q rest ih =>
+    simp only [List.foldl_cons]
+    rw [ih _ (fun q' hq' => h q' (List.mem_cons_of_mem _ hq')), lookupFixed_pfStep,
+      if_neg (h q List.mem_cons_self)]
+
+/-- the last `fixed_domain_ttl` line for a name (in any spelling) is the one that counts -/
+theorem lookupFixed_parseFixed (pre post : List (List Char × Int)) (name : List Char) (f : Int)
+    (hpost : ∀ q ∈ post, q.1.map lowerAscii ≠ name.map lowerAscii) :
+    lookupFixed (parseFixed (pre ++ (name, f) :: post)) (name.map lowerAscii) = some f := by
+  rw [parseFixed_eq, List.foldl_append, List.foldl_cons, lookupFixed_foldl_other _ _ _ hpost, lookupFixed_pfStep]
+  simp
+
+theorem lookupFixed_parseFixed_none (raw : List (List Char × Int)) (k : List Char)
+    (h : ∀ q ∈ raw, q.1.map lowerAscii ≠ k) : lookupFixed (parseFixed raw) k = none := by
+  rw [parseFixed_eq, lookupFixed_foldl_other _ _ _ h]; rfl
 
 
 end DaeVerif.C08
